@@ -15,7 +15,7 @@ import GfsGen.Facts
 import GfsProofs.SeqlsLemmas
 
 namespace Gfs.Props.C17
-open Gfs.Seqls Gfs.Proofs
+open Gfs.Seqls Gfs.Proofs Gfs.Proofs.SeqlsP
 
 /-- conservation: printed ⊎ held by workers ⊎ yield of the unsent items = yield of all items,
     in every reachable state of every schedule -/
